@@ -1,6 +1,6 @@
 (* C10 - login completes correctly for every order of optional server steps. *)
 From Coq Require Import ZArith List Bool.
-From PyCraft Require Import Model.Reactors Proofs.ReactorsProofs.
+From PyCraft Require Import Model.Reactors Proofs.ReactorsProofs Model.LoopErr Proofs.LoopErrProofs.
 Import ListNotations.
 Open Scope Z_scope.
 
@@ -95,3 +95,11 @@ Example C10_relogin_ex :
   let again := run [SRecv (IPlugin 2); SFlush 3; SRecv ISuccess] (reconnect used) in
   s_wire again = [ {| w_pkt := OPluginResp 2; w_comp := None; w_enc := None |} ] /\ s_play again = true /\ s_end again = None.
 Proof. vm_compute. repeat split; reflexivity. Qed.
+
+(* "a disconnect packet during login always surfaces as a login-failure error ... never as a silent exit" - also when the
+   answer to a plugin request could no longer be written: the error raised by reacting to the disconnect packet is what
+   leaves the networking loop, whatever write error had been held back in that turn (Model/LoopErr.v). *)
+Theorem C10_refusal_wins_over_write_error : forall held pre r e post,
+  forallb quiet pre = true -> rd_raises r = Some e -> read_phase held (pre ++ r :: post) = TRaised e.
+Proof. exact reaction_error_wins. Qed.
+Print Assumptions C10_refusal_wins_over_write_error.
